@@ -654,6 +654,19 @@ fn link_cases(args: &Args, rng: &mut Rng) -> Vec<LinkCase> {
             }
         }
     }
+    // a setup chunk that arrives again long after the association carried data (held until the link is quiet, i.e. after the
+    // first messages were delivered, acknowledged and freed by the sender); the last message of the workload follows it.
+    // A receiver that lets the stale INIT / INIT-ACK / COOKIE-ECHO re-base its cumulative TSN never delivers that message.
+    for f in ["A.INIT.1.late400", "B.INITACK.1.late400", "A.COOKIEECHO.1.late400", "B.COOKIEACK.1.late400"] {
+        for (k, tsn) in [None, Some(0xFFFF_FFFEu32)].into_iter().enumerate() {
+            let mut case = mk_case(&wl[6], faults_parse(f), tsn);
+            // the server sends too (own, unseeded initial TSN): its last message also follows the stale chunk
+            case.cfg[1].seed_tsn = None;
+            case.msgs.push(Msg { side: 1, chan: 1, data: payload(1, 1, 0, 500), phase: 0, task: 0 });
+            case.msgs.push(Msg { side: 1, chan: 1, data: payload(1, 1, 1, 2500), phase: 1, task: 0 });
+            v.push(LinkCase { name: format!("stale-setup-{f}-{k}"), case });
+        }
+    }
     // a duplicate of a chunk that is being held out of order; a retransmission racing its SACK
     for f in ["A.TSN.1.dropn1+A.DATA.3.dup", "A.TSN.0.dropn1+A.DATA.2.dup+A.DATA.4.late2", "A.TSN.2.dropn2+B.SACK.2.drop"] {
         v.push(LinkCase { name: format!("directed-{f}"), case: mk_case(&wl[4], faults_parse(f), None) });
